@@ -434,9 +434,17 @@ def run_case(ctx, job, idx, rng, st):
                         tol = OMEGA_E * rn * t_res_jd + 1e-6 + 1e-12 * rn
                     elif name in ("sun", "moon"):
                         tol = vn * t_res_jd + 1e-6 + 1e-12 * rn
+                    elif name == "sgp4":
+                        # the sgp4 package takes a calendar date and works on a float Julian date: its own time resolution is
+                        # 40 us (the |v| x 50 us of property C07); a 1 us relabelling can flip that rounding (observed 39 us)
+                        tol = vn * 5.5e-5 + 1e-6 + 1e-12 * rn
                     else:
                         tol = vn * t_res + 1e-6 + 1e-12 * rn
                     known_bound = (vn + OMEGA_E * rn) * kt + 1e-7 * rn
+                    if name in ("keplernum", "ephem", "ephem-nodes", "ccsds-oem", "events"):
+                        # these interpolate (order 8) over nodes dated by label arithmetic: a node table with a one-day-dUT1
+                        # step in its dates is amplified by the Lebesgue constant of the window (< 4 for order 8, uniform)
+                        known_bound *= 4.0
                     val, unit = d_pos, "m"
                 elif kind == "vel":
                     # Lambert velocities change with the transfer time at about the gravitational acceleration: mu/r^2 x time resolution
